@@ -10,6 +10,7 @@ import (
 	"syscall"
 	"testing"
 	"time"
+	"unicode/utf8"
 
 	"github.com/relex/gotils/logger"
 	"github.com/relex/gotils/promexporter/promext"
@@ -82,52 +83,109 @@ type AUp struct {
 // AEvent is a timed event of the driver
 type AEvent struct {
 	AtMs int    `json:"at_ms"`
-	Kind string `json:"kind"`        // restart | sigusr1 | sighup_* | clock_back
-	N    int    `json:"n,omitempty"` // clock_back: milliseconds
+	Kind string `json:"kind"`           // restart | sigusr1 | sighup_* | clock_back | stall
+	N    int    `json:"n,omitempty"`    // clock_back, stall: milliseconds
+	Site string `json:"site,omitempty"` // stall: the goroutines of the agent started at this go statement (file name) do not run for N ms - a thread blocked in a system call, a paused cgroup
+}
+
+// ADiskFault is one fault on a chunk file of the on-disk queue (profile c04a): the Nth operation of that kind on a chunk file
+// in that agent generation
+type ADiskFault struct {
+	Gen    int    `json:"gen"`
+	OpKind string `json:"op"` // create | write | close | rename | open | read | unlink
+	Nth    int    `json:"nth"`
+	Action string `json:"action"` // short | err | shorterr | kill | shortkill
+	Bytes  int    `json:"bytes,omitempty"`
+	Errno  string `json:"errno,omitempty"`
 }
 
 // AScenario is one world-A run
 type AScenario struct {
-	Profile       string     `json:"profile"`
-	Keys          []string   `json:"keys"`                                        // orchestration key fields
-	MetricKeys    []string   `json:"metric_keys,omitempty"`                       // metricKeys of the configuration (default: host)
-	Out2          bool       `json:"second_output,omitempty"`                     // a second output/buffer pair with different serialization settings (reference count 2 per record)
-	IDFault       int        `json:"id_file_write_fails_in_generation,omitempty"` // in this agent generation every write to a queue directory's .id file fails with ENOSPC (after the truncating open)
-	Umask         int        `json:"umask,omitempty"`                             // process umask (octal value as decimal int): 0, 027 or 077
-	UnescIn       bool       `json:"unescape_in_extractions,omitempty"`           // the unescape step also sits among the input extractions, where records queue up after it
-	AcceptErrs    []int      `json:"accept_errors_before_connection,omitempty"`   // the accept(2) that would return the k-th connection first fails once with a transient error (EMFILE)
-	Fine          bool       `json:"fine_yields,omitempty"`                       // every larger function entry of the agent is a preemption point in this run
-	SpawnStall    int        `json:"spawn_stall,omitempty"`                       // percentage of the agent's go statements whose goroutine starts late (1 ms .. 1.5 s of simulated time, at most 6 per run)
-	YieldStall    int        `json:"yield_stall,omitempty"`                       // per mille of the scheduling points at which a goroutine of the agent is held for 1-5 ms (at most 8 per run)
-	Datadog       bool       `json:"datadog_output,omitempty"`                    // a Datadog output/buffer pair whose consumer never takes a chunk: every chunk it makes ends up in its queue root
-	Poison        bool       `json:"poison_released_buffers,omitempty"`           // released backing buffers are overwritten with 0xEE (in the other runs they keep their bytes until reused, which is what lets a stale reference read ANOTHER record)
-	Tag           string     `json:"tag"`                                         // tag template
-	KeyTuples     [][]string `json:"key_tuples"`                                  // values of (app, level-severity, pid) per tuple index; level is a severity number as string
-	Mode          string     `json:"mode"`
-	MaxDurMs      int        `json:"max_duration_ms"`
-	FlushMs       int        `json:"flush_ms"`
-	IBufLogs      int        `json:"intermediate_buffer_logs"`
-	IBufBytes     int        `json:"intermediate_buffer_bytes,omitempty"` // 0 = the shipped 4 MiB
-	MemCap        int        `json:"mem_cap"`
-	ChunkMaxBytes int        `json:"chunk_max_bytes"`
-	ChunkMaxRecs  int        `json:"chunk_max_records"`
-	AckTimeoutMs  int        `json:"ack_timeout_ms"`
-	ConnTimeoutMs int        `json:"conn_timeout_ms"`
-	RetryMs       int        `json:"retry_ms"`
-	PingMs        int        `json:"ping_ms"`
-	ICTMs         int        `json:"intermediate_channel_timeout_ms"`
-	MsgMax        int        `json:"input_max_message_bytes"`
-	PoolMin       int        `json:"min_record_bytes_to_pool"`
-	PoolMode      int        `json:"pool_mode"`
-	UpRx          int        `json:"upstream_rx_buffer"`
-	Reloader      bool       `json:"reloader"`
-	Clients       []AClient  `json:"clients"`
-	Upstream      []AUp      `json:"upstream"`
-	HealAtMs      int        `json:"heal_at_ms"`
-	Events        []AEvent   `json:"events"`
-	FinalStop     bool       `json:"final_stop_without_waiting"` // stop at the end without waiting for delivery (records may stay on disk)
-	QueueCap      int        `json:"queue_cap"`
-	MaxBufBytes   int        `json:"max_buf_bytes"`
+	Profile       string       `json:"profile"`
+	DiskFaults    []ADiskFault `json:"disk_faults,omitempty"`                       // faults on chunk files; a kill ends the agent process, which is then started again
+	Keys          []string     `json:"keys"`                                        // orchestration key fields
+	MetricKeys    []string     `json:"metric_keys,omitempty"`                       // metricKeys of the configuration (default: host)
+	Out2          bool         `json:"second_output,omitempty"`                     // a second output/buffer pair with different serialization settings (reference count 2 per record)
+	IDFault       int          `json:"id_file_write_fails_in_generation,omitempty"` // in this agent generation every write to a queue directory's .id file fails with ENOSPC (after the truncating open)
+	Umask         int          `json:"umask,omitempty"`                             // process umask (octal value as decimal int): 0, 027 or 077
+	UnescIn       bool         `json:"unescape_in_extractions,omitempty"`           // the unescape step also sits among the input extractions, where records queue up after it
+	AcceptErrs    []int        `json:"accept_errors_before_connection,omitempty"`   // the accept(2) that would return the k-th connection first fails once with a transient error (EMFILE)
+	Fine          bool         `json:"fine_yields,omitempty"`                       // every larger function entry of the agent is a preemption point in this run
+	SpawnStall    int          `json:"spawn_stall,omitempty"`                       // percentage of the agent's go statements whose goroutine starts late (1 ms .. 1.5 s of simulated time, at most 6 per run)
+	YieldStall    int          `json:"yield_stall,omitempty"`                       // per mille of the scheduling points at which a goroutine of the agent is held for 1-5 ms (at most 8 per run)
+	Datadog       bool         `json:"datadog_output,omitempty"`                    // a Datadog output/buffer pair whose consumer never takes a chunk: every chunk it makes ends up in its queue root
+	Poison        bool         `json:"poison_released_buffers,omitempty"`           // released backing buffers are overwritten with 0xEE (in the other runs they keep their bytes until reused, which is what lets a stale reference read ANOTHER record)
+	Tag           string       `json:"tag"`                                         // tag template
+	KeyTuples     keyTuples    `json:"key_tuples"`                                  // values of (app, level-severity, pid) per tuple index; level is a severity number as string
+	Mode          string       `json:"mode"`
+	MaxDurMs      int          `json:"max_duration_ms"`
+	FlushMs       int          `json:"flush_ms"`
+	IBufLogs      int          `json:"intermediate_buffer_logs"`
+	IBufBytes     int          `json:"intermediate_buffer_bytes,omitempty"` // 0 = the shipped 4 MiB
+	MemCap        int          `json:"mem_cap"`
+	ChunkMaxBytes int          `json:"chunk_max_bytes"`
+	ChunkMaxRecs  int          `json:"chunk_max_records"`
+	AckTimeoutMs  int          `json:"ack_timeout_ms"`
+	ConnTimeoutMs int          `json:"conn_timeout_ms"`
+	RetryMs       int          `json:"retry_ms"`
+	PingMs        int          `json:"ping_ms"`
+	ICTMs         int          `json:"intermediate_channel_timeout_ms"`
+	MsgMax        int          `json:"input_max_message_bytes"`
+	PoolMin       int          `json:"min_record_bytes_to_pool"`
+	PoolMode      int          `json:"pool_mode"`
+	UpRx          int          `json:"upstream_rx_buffer"`
+	Reloader      bool         `json:"reloader"`
+	Clients       []AClient    `json:"clients"`
+	Upstream      []AUp        `json:"upstream"`
+	HealAtMs      int          `json:"heal_at_ms"`
+	Events        []AEvent     `json:"events"`
+	FinalStop     bool         `json:"final_stop_without_waiting"` // stop at the end without waiting for delivery (records may stay on disk)
+	QueueCap      int          `json:"queue_cap"`
+	MaxBufBytes   int          `json:"max_buf_bytes"`
+}
+
+// keyTuples are the key values of the scenario; values that are not valid UTF-8 are written as {"bytes_base64": ...} because
+// encoding/json would replace their bytes by U+FFFD and the replay file would describe another scenario
+type keyTuples [][]string
+
+func (k keyTuples) MarshalJSON() ([]byte, error) {
+	out := make([][]any, len(k))
+	for i, t := range k {
+		out[i] = make([]any, len(t))
+		for j, v := range t {
+			if utf8.ValidString(v) {
+				out[i][j] = v
+			} else {
+				out[i][j] = map[string][]byte{"bytes_base64": []byte(v)}
+			}
+		}
+	}
+	return json.Marshal(out)
+}
+
+func (k *keyTuples) UnmarshalJSON(b []byte) error {
+	var raw [][]json.RawMessage
+	if err := json.Unmarshal(b, &raw); err != nil {
+		return err
+	}
+	*k = nil
+	for _, t := range raw {
+		var tuple []string
+		for _, m := range t {
+			var sv string
+			if err := json.Unmarshal(m, &sv); err == nil {
+				tuple = append(tuple, sv)
+				continue
+			}
+			var o map[string][]byte
+			if err := json.Unmarshal(m, &o); err != nil {
+				return err
+			}
+			tuple = append(tuple, string(o["bytes_base64"]))
+		}
+		*k = append(*k, tuple)
+	}
+	return nil
 }
 
 // rawStr is a byte string that survives JSON: encoding/json would replace invalid UTF-8 by U+FFFD and a replay file would
@@ -158,9 +216,10 @@ func (s *AScenario) configYAML(variant string) string {
 	extra := ""
 	switch variant {
 	case "valid2":
-		// a compatible change: a new field appended and another transformation
+		// a compatible change: a new field appended to the schema and another transformation, which sets it for some records only
+		// (a field that every record sets would hide whatever a recycled record object still carries in that slot)
 		fields += ", extra2"
-		extra = "  - type: addFields\n    fields:\n      extra2: v2\n"
+		extra = "  - type: if\n    match:\n      host: h1\n    then:\n      - type: addFields\n        fields:\n          extra2: v2-$pid\n"
 	case "addoutput":
 		// one more (or one fewer) output/buffer pair: parses and verifies on its own; whether a running agent can take it over
 		// is for the compatibility check to decide - either it is rejected or it has to work
@@ -363,9 +422,17 @@ func (s *AScenario) recordLine(client, seq int, rec ARec) string {
 	return line
 }
 
+// mkPairs: (host, msgid) pairs that coincide under one of the plausible ways of merging two values into one lookup key: plain
+// concatenation, decimal length prefixes without a terminator ("11"+"11-worker-x"+"1"+"s" == "1"+"1"+"11"+"-worker-x1s"), a joining
+// character that the values may contain themselves
+var mkPairs = [][2]string{{"h", "1s"}, {"h1", "s"}, {"h2", "s"}, {"h", "2s"}, {"11-worker-x", "s"}, {"1", "-worker-x1s"},
+	{"h,1", "s"}, {"h", "1,s"}, {"h/1", "s"}, {"h", "1/s"}, {"h|1", "s"}, {"h", "1|s"}}
+
+// (no pair with ':' - the simulated configuration cuts the msgid at a colon: extractTail of source)
+
 // mkHostSource gives (host, msgid) pairs whose plain concatenations coincide: h+1s, h1+s, h1s+x ...
 func mkHostSource(mk int) (string, string) {
-	p := [][2]string{{"h", "1s"}, {"h1", "s"}, {"h2", "s"}, {"h", "2s"}}[(mk-1)%4]
+	p := mkPairs[(mk-1)%len(mkPairs)]
 	return p[0], p[1]
 }
 
@@ -530,7 +597,7 @@ func (w *worldA) Generate(r *simrt.Rand, profile, tier string) any {
 	return s
 }
 
-var c06Alphabet = []string{"", "a", "b", "ab", "bc", "c", ",", "a,b", "b,c", "/", "a/b", "a\x00b", ".", "..", "a\t", "\ta", "\t", "a\x0b", "\ra", "xxxxxxxxxxxxxxxxxxxxxxxxxxxxxxxxxxxxxxxxxxxxxxxxxxxxxxxxxxxxxxxxxxxxxxxx"}
+var c06Alphabet = []string{"", "a", "b", "ab", "bc", "c", ",", "a,b", "b,c", "/", "a/b", "a\x00b", ".", "..", "a\t", "\ta", "\t", "a\x0b", "\ra", "\xff", "\xfe", "\uFFFD", "a\xc0b", "a\xc1b", "xxxxxxxxxxxxxxxxxxxxxxxxxxxxxxxxxxxxxxxxxxxxxxxxxxxxxxxxxxxxxxxxxxxxxxxx"}
 
 // hostile material for C07, produced by grammar mutation of a valid record
 func hostileLine(r *simrt.Rand, n int) string {
@@ -640,6 +707,14 @@ func (w *worldA) tweak(r *simrt.Rand, s *AScenario, end int) {
 			for i, n := 0, 1+r.Intn(2); i < n; i++ {
 				s.Events = append(s.Events, AEvent{AtMs: bt[r.Intn(len(bt))] + []int{0, 0, 1, 5, 600}[r.Intn(5)], Kind: "restart"})
 			}
+			if r.Bool(20) {
+				// a pipeline's worker does not run for longer than the hand-over timeout of the per-key buffers (blocked in a system call,
+				// a paused cgroup) while its connections keep delivering: the documented outcome is a logged loss of the batch that
+				// could not be handed over - never a change of order among the records that do arrive
+				s.ICTMs = 5000
+				s.IBufLogs = 2
+				s.Events = append(s.Events, AEvent{AtMs: bt[r.Intn(len(bt))] + []int{0, 1, 400}[r.Intn(3)], Kind: "stall", N: 5200 + r.Intn(6000), Site: "pipelineworkerbase.go"})
+			}
 			if r.Bool(25) {
 				// the wall clock steps back between two bursts: chunk ids are made from it, and resending and recovery order by id
 				at := bt[r.Intn(len(bt))] + 1
@@ -670,7 +745,9 @@ func (w *worldA) tweak(r *simrt.Rand, s *AScenario, end int) {
 		s.Tag = tagOpts[r.Intn(len(tagOpts))]
 		s.KeyTuples = nil
 		// colliding concatenations and separators first, then random picks from the alphabet
-		seeds := [][]string{{"ab", "c"}, {"a", "bc"}, {"a,b", "c"}, {"a", "b,c"}, {"", "a"}, {"a", ""}, {",", ""}, {"", ","}, {"a/b", "c"}, {"a", "b"}, {"a\t", "a"}, {"a", "\ta"}, {"\t", "a"}}
+		seeds := [][]string{{"ab", "c"}, {"a", "bc"}, {"a,b", "c"}, {"a", "b,c"}, {"", "a"}, {"a", ""}, {",", ""}, {"", ","}, {"a/b", "c"}, {"a", "b"}, {"a\t", "a"}, {"a", "\ta"}, {"\t", "a"},
+			// bytes that are not UTF-8: whatever cleans them up for a label, a log line or a directory name must not merge the key sets
+			{"\xff", "c"}, {"\xfe", "c"}, {"\uFFFD", "c"}, {"a\xc0b", "\xff"}, {"a\xc1b", "\xff"}}
 		for i, n := 0, 2+r.Intn(5); i < n; i++ {
 			var app, pid string
 			if r.Bool(60) {
@@ -838,6 +915,12 @@ func (w *worldA) tweak(r *simrt.Rand, s *AScenario, end int) {
 		s.Out2 = r.Bool(50)
 		s.Poison = r.Bool(50)
 		s.UnescIn = r.Bool(50)
+		if r.Bool(25) {
+			// record objects and their allocator outlive a reload, the schema may grow with it: a successful reload that appends a
+			// field which only some records set
+			s.Reloader = true
+			s.Events = append(s.Events, AEvent{AtMs: r.Intn(end/2 + 1), Kind: "sighup_valid"})
+		}
 		for ci := range s.Clients {
 			for bi := range s.Clients[ci].Bursts {
 				bu := &s.Clients[ci].Bursts[bi]
@@ -856,6 +939,34 @@ func (w *worldA) tweak(r *simrt.Rand, s *AScenario, end int) {
 					}
 				}
 			}
+		}
+	case "c04a":
+		// C04 end to end: the real serializer, chunk maker, buffer, client and upstream protocol around a disk that fails and a
+		// process that is killed while chunk files are written, read back and removed
+		s.MemCap = r.Range(1, 3)
+		s.ChunkMaxBytes = []int{300, 1000, 4000}[r.Intn(3)]
+		s.FinalStop = false
+		s.MaxDurMs = []int{20000, 60000}[r.Intn(2)]
+		s.AckTimeoutMs = []int{3000, 20000}[r.Intn(2)]
+		if len(s.Upstream) < 2 {
+			// an upstream that does not take the chunks makes them spill
+			s.Upstream = append(s.Upstream, AUp{Kind: "never_ack"}, AUp{Kind: "refuse"})
+		}
+		s.HealAtMs = end + r.Intn(20000)
+		kinds := []string{"write", "write", "write", "create", "close", "rename", "open", "read", "unlink"}
+		for i, n := 0, 1+r.Intn(3); i < n; i++ {
+			f := ADiskFault{Gen: 1 + r.Intn(3), OpKind: kinds[r.Intn(len(kinds))], Nth: r.Intn(6)}
+			if r.Bool(35) {
+				f.Nth = r.Intn(25)
+			}
+			if f.OpKind == "write" {
+				f.Action = []string{"short", "err", "kill", "shortkill", "shorterr"}[r.Intn(5)]
+				f.Bytes = []int{0, 1, 7, 60, 250, 1000}[r.Intn(6)]
+			} else {
+				f.Action = []string{"err", "kill"}[r.Intn(2)]
+			}
+			f.Errno = []string{"ENOSPC", "EIO", "EDQUOT"}[r.Intn(3)]
+			s.DiskFaults = append(s.DiskFaults, f)
 		}
 	case "c17a":
 		s.Reloader = true
@@ -898,7 +1009,7 @@ func (w *worldA) tweak(r *simrt.Rand, s *AScenario, end int) {
 				for bi := range s.Clients[ci].Bursts {
 					for ri := range s.Clients[ci].Bursts[bi].Recs {
 						if r.Bool(40) {
-							s.Clients[ci].Bursts[bi].Recs[ri].MK = 1 + r.Intn(4)
+							s.Clients[ci].Bursts[bi].Recs[ri].MK = 1 + 2*r.Intn(len(mkPairs)/2) + r.Intn(2) // mostly both members of a colliding pair in one run
 						}
 					}
 				}
@@ -943,6 +1054,14 @@ func (w *worldA) Shrink(sc any) []any {
 		c := clone()
 		c.Events = append(c.Events[:i], c.Events[i+1:]...)
 		out = append(out, c)
+	}
+	if len(s.DiskFaults) > 1 {
+		// (the last one stays: without any the profile's kill-aware driver would not be in use)
+		for i := range s.DiskFaults {
+			c := clone()
+			c.DiskFaults = append(c.DiskFaults[:i], c.DiskFaults[i+1:]...)
+			out = append(out, c)
+		}
 	}
 	for i := range s.Upstream {
 		c := clone()
@@ -1065,6 +1184,12 @@ type aRun struct {
 	stopSince            time.Duration // simulated time+1 at which a stop in progress was requested; 0 when none
 	finalDeadlineHit     bool
 	lastFaultAt          time.Duration
+	killedGen            int            // generation whose process was killed by a disk fault and has not been started again yet
+	kills                int            // processes killed so far
+	diskOpCount          map[string]int // "<generation>/<kind>" -> chunk-file operations seen
+	noMoreDiskFaults     bool           // the fault-free tail has begun
+	filesAtLastStart     map[string][]byte
+	notDrained           bool
 	reloads              []string // variants delivered
 	reloadOK, reloadFail int
 	healthyFrom          time.Duration
@@ -1172,7 +1297,7 @@ func (r *aRun) startAgent() bool {
 	r.gen++
 	gen := r.gen
 	a := &aAgent{gen: gen}
-	runAs(fmt.Sprintf("agent%d.main", gen), gen, func() {
+	returned := r.runAgentCode(fmt.Sprintf("agent%d.main", gen), gen, -1, func() {
 		defer func() {
 			if p := recover(); p != nil {
 				a.startErr = fmt.Sprint(p)
@@ -1207,6 +1332,11 @@ func (r *aRun) startAgent() bool {
 		}
 		a.orch = orch
 	})
+	if !returned {
+		// the process was killed while it was starting
+		r.agent = a
+		return r.reviveIfKilled()
+	}
 	if a.startErr != "" {
 		r.out.Harness = "agent start failed: " + a.startErr
 		return false
@@ -1256,6 +1386,122 @@ func parseMetrics(dump string) map[string]float64 {
 	return m
 }
 
+// runAgentCode runs f on a goroutine of the given agent generation and waits until it has returned, at most d of simulated time
+// (d < 0: no limit). In scenarios with disk faults it also returns, with false, when the generation's process is killed.
+func (r *aRun) runAgentCode(name string, gen int, d time.Duration, f func()) bool {
+	if len(r.s.DiskFaults) == 0 {
+		if d < 0 {
+			return runAs(name, gen, f)
+		}
+		return runAsWithin(name, gen, d, f)
+	}
+	done := make(chan struct{})
+	simrt.GoNamed(name, gen, func() {
+		f()
+		close(done)
+	})
+	var deadline time.Duration
+	if d >= 0 {
+		deadline = simrt.Now() + d
+	}
+	for {
+		if r.killedGen == gen {
+			return false
+		}
+		left := time.Hour
+		if d >= 0 {
+			if left = deadline - simrt.Now(); left <= 0 {
+				return false
+			}
+		}
+		tm := time.NewTimer(left)
+		i := simrt.Select("runAgentCode "+name, false, simrt.RecvCase(done), simrt.RecvCase(r.ev), simrt.RecvCase(tm.C)).I
+		tm.Stop()
+		if i == 0 {
+			return true
+		}
+	}
+}
+
+// reviveIfKilled: when a disk fault has killed the agent's process, the kernel's part of the exit is done here (descriptors and
+// sockets vanish) and the agent is started again on the same disk a little later, as a service supervisor does
+func (r *aRun) reviveIfKilled() bool {
+	if r.killedGen == 0 || r.agent == nil || r.agent.gen != r.killedGen {
+		return false
+	}
+	a := r.agent
+	r.killedGen = 0
+	r.kills++
+	r.out.probe("agent_process_killed_and_started_again", 1)
+	r.fs.DropHandlesOf(a.gen)
+	r.net.ProcessDied()
+	simsignal.Reset()
+	r.agent = nil
+	r.stopping = false
+	r.stopSince = 0
+	r.notify()
+	simrt.Sleep("a.driver.revive", 100*time.Millisecond)
+	r.writeConfig("")
+	return r.startAgent()
+}
+
+// pause lets d of simulated time pass; in scenarios with disk faults it also restarts an agent whose process was killed meanwhile
+func (r *aRun) pause(site string, d time.Duration) {
+	if len(r.s.DiskFaults) == 0 {
+		simrt.Sleep(site, d)
+		return
+	}
+	end := simrt.Now() + d
+	for {
+		r.reviveIfKilled()
+		left := end - simrt.Now()
+		if left <= 0 {
+			return
+		}
+		waitEv(site, r.ev, left)
+	}
+}
+
+// diskFaultHook applies the scenario's disk faults to the operations on chunk files
+func (r *aRun) diskFaultHook(op simfs.Op) simfs.Action {
+	if r.noMoreDiskFaults || !strings.Contains(op.Path, ".ff") {
+		return simfs.Action{}
+	}
+	key := fmt.Sprintf("%d/%s", op.Gen, op.Kind)
+	n := r.diskOpCount[key]
+	r.diskOpCount[key] = n + 1
+	for _, f := range r.s.DiskFaults {
+		if f.Gen != op.Gen || f.OpKind != op.Kind || f.Nth != n {
+			continue
+		}
+		a := simfs.Action{}
+		switch f.Action {
+		case "short":
+			a.ShortSet, a.Short = true, min(f.Bytes, max(0, op.Len-1))
+			r.out.fault("short_write", 1)
+		case "err":
+			a.Err = errnoOf(f.Errno)
+			r.out.fault(op.Kind+"_error", 1)
+		case "shorterr":
+			a.ShortSet, a.Short = true, min(f.Bytes, op.Len)
+			a.Err = errnoOf(f.Errno)
+			r.out.fault("write_partial_then_error", 1)
+		case "kill":
+			a.Kill = true
+			if op.Kind == "write" {
+				a.ShortSet, a.Short = true, op.Len // the write completed, then the process died
+			}
+			r.out.fault("kill_at_"+op.Kind, 1)
+		case "shortkill":
+			a.Kill = true
+			a.ShortSet, a.Short = true, min(f.Bytes, op.Len)
+			r.out.fault("kill_mid_write", 1)
+		}
+		return a
+	}
+	return simfs.Action{}
+}
+
 // stopAgent performs the graceful shutdown of run.Run (inputs, then orchestrator) and the process exit
 func (r *aRun) stopAgent() {
 	a := r.agent
@@ -1266,10 +1512,15 @@ func (r *aRun) stopAgent() {
 	t0 := simrt.Now()
 	r.stopSince = t0 + 1
 	bug0 := strings.Count(r.logbuf.String(), "BUG:")
-	if !runAsWithin(fmt.Sprintf("agent%d.stop", a.gen), a.gen, 3*c18Bound(), func() {
+	if !r.runAgentCode(fmt.Sprintf("agent%d.stop", a.gen), a.gen, 3*c18Bound(), func() {
 		a.shutIn()
 		a.orch.Shutdown()
 	}) {
+		if r.killedGen == a.gen {
+			// the process was killed during its shutdown: it is started again, like after any other kill
+			r.reviveIfKilled()
+			return
+		}
 		// the stop did not return within three times the bound: the run ends here and is judged as a hung shutdown
 		r.stopHung = true
 		return
@@ -1327,6 +1578,14 @@ func (r *aRun) drive() {
 			return simfs.Action{}
 		}
 	}
+	if len(s.DiskFaults) > 0 {
+		r.diskOpCount = map[string]int{}
+		r.fs.Hook = r.diskFaultHook
+		r.fs.OnKill = func(gen int) {
+			r.killedGen = gen
+			r.notify()
+		}
+	}
 	r.setKnobs()
 	r.writeConfig("")
 	if r.out.Harness != "" {
@@ -1359,14 +1618,22 @@ func (r *aRun) drive() {
 	// timed events, in order
 	for ei, ev := range s.Events {
 		if d := ms(ev.AtMs) - simrt.Now(); d > 0 {
-			simrt.Sleep("a.driver.event", d)
+			r.pause("a.driver.event", d)
 		}
 		switch ev.Kind {
 		case "restart":
 			r.out.fault("graceful_restart", 1)
+			r.reviveIfKilled()
+			if r.agent == nil {
+				return
+			}
+			gen0 := r.agent.gen
 			r.stopAgent()
 			if r.stopHung {
 				return
+			}
+			if r.agent != nil && r.agent.gen != gen0 {
+				break // killed during the shutdown and started again already
 			}
 			simrt.Sleep("a.driver.restart", 100*time.Millisecond)
 			r.writeConfig("")
@@ -1377,6 +1644,10 @@ func (r *aRun) drive() {
 			// the wall clock is stepped back (NTP, VM resume); chunk ids are made from it
 			simrt.StepWallClock(-ms(ev.N))
 			r.out.fault("wall_clock_stepped_back", 1)
+		case "stall":
+			if n := simrt.Stall(ev.Site, ms(ev.N)); n > 0 {
+				r.out.fault("agent_goroutines_held_longer_than_the_channel_timeout", n)
+			}
 		case "sigusr1":
 			if simsignal.Deliver(syscall.SIGUSR1) > 0 {
 				r.out.fault("sigusr1_delivered", 1)
@@ -1398,7 +1669,28 @@ func (r *aRun) drive() {
 		}
 	}
 	for pending > 0 {
+		if r.reviveIfKilled(); r.out.Harness != "" {
+			return
+		}
 		waitEv("a.driver.clients", r.ev, -1)
+	}
+	if len(s.DiskFaults) > 0 {
+		// the fault-free tail of C04 in world A: no more disk faults, then one more graceful restart, so that the last generation
+		// starts on whatever the faults and kills have left in the queue directories and has to deal with it
+		r.reviveIfKilled()
+		r.noMoreDiskFaults = true
+		if r.agent == nil {
+			return
+		}
+		r.stopAgent()
+		if r.stopHung {
+			return
+		}
+		simrt.Sleep("a.driver.restart", 100*time.Millisecond)
+		r.filesAtLastStart = r.fs.Files(aBufRoot)
+		if !r.startAgent() {
+			return
+		}
 	}
 	// fault-free tail: the upstream is healthy from now on (or from HealAtMs, whichever is later)
 	r.healthyFrom = max(simrt.Now(), ms(s.HealAtMs))
@@ -1424,7 +1716,34 @@ func (r *aRun) drive() {
 			}
 			return true
 		}
-		for !r.allDelivered() || !drained() {
+		if s.Profile == "c04a" {
+			// records that a kill or a counted drop has taken away never arrive: wait until the queue directories are empty and have
+			// been for 30 simulated seconds, or the bound has passed
+			emptySince := time.Duration(-1)
+			for {
+				empty := true
+				for p := range r.fs.Files(aBufRoot) {
+					if strings.HasSuffix(p, ".ff") {
+						empty = false
+					}
+				}
+				if !empty {
+					emptySince = -1
+				} else if emptySince < 0 {
+					emptySince = simrt.Now()
+				}
+				if r.allDelivered() && empty || empty && simrt.Now()-emptySince >= 30*time.Second {
+					break
+				}
+				left := deadline - simrt.Now()
+				if left <= 0 {
+					r.notDrained = !empty
+					break
+				}
+				waitEv("a.driver.liveness", r.srv.ev, min(left, time.Second))
+			}
+		}
+		for s.Profile != "c04a" && (!r.allDelivered() || !drained()) {
 			left := deadline - simrt.Now()
 			if left <= 0 {
 				r.finalDeadlineHit = true
